@@ -335,6 +335,7 @@ fn run_artifacts(rep: &Report, tier: Tier) {
         });
         let mut rejected = 0u64;
         let mut accepted_same = 0u64;
+        let codes: Vec<u8> = results.iter().map(|r| r.0).collect();
         for (m, (code, info)) in muts.iter().zip(results) {
             match code {
                 0 => rejected += 1,
@@ -366,8 +367,63 @@ fn run_artifacts(rep: &Report, tier: Tier) {
                 }
             }
         }
-        rep.add_evaluations(muts.len() as u64);
-        rep.add_nontrivial_count(muts.len() as u64);
+        // second level: a length-preserving mutant that is accepted with the value unchanged is a
+        // protected byte the check does not notice — harmless alone, but it may be the byte that
+        // *disables* the check (a version or flag field). Every such mutant is combined with every
+        // bit flip and 0x00/0xFF substitution inside the protected region.
+        let holes: Vec<&Mutation> = muts
+            .iter()
+            .zip(codes.iter())
+            .filter(|(m, c)| **c == 1 && matches!(m, Mutation::Flip(..) | Mutation::Subst(..)))
+            .map(|(m, _)| m)
+            .collect();
+        const HOLE_CAP: usize = 16;
+        if holes.len() > HOLE_CAP {
+            rep.bump("artifacts_with_more_unnoticed_single_mutations_than_combined", 1);
+        }
+        let mut second: Vec<(usize, Mutation)> = Vec::new();
+        for (hi, h) in holes.iter().take(HOLE_CAP).enumerate() {
+            let hp = match h {
+                Mutation::Flip(p, _) | Mutation::Subst(p, _) => *p,
+                _ => continue,
+            };
+            for r in &a.regions {
+                for p in r.clone() {
+                    if p == hp {
+                        continue;
+                    }
+                    for bit in 0..8 {
+                        second.push((hi, Mutation::Flip(p, bit)));
+                    }
+                    for b in [0u8, 0xFF] {
+                        if b != a.bytes[p] && (b ^ a.bytes[p]).count_ones() != 1 {
+                            second.push((hi, Mutation::Subst(p, b)));
+                        }
+                    }
+                }
+            }
+        }
+        let pair_results = par_map(second.len(), |i| {
+            let (hi, m2) = &second[i];
+            let v = apply(m2, &apply(holes[*hi], &a.bytes));
+            match catch(|| (a.accept)(&v)) {
+                Err(_) | Ok(None) => None,
+                Ok(Some(items)) => items.iter().find(|it| !orig_logical.contains(it)).cloned(),
+            }
+        });
+        for ((hi, m2), bad) in second.iter().zip(pair_results) {
+            if let Some(bad) = bad {
+                rep.violation(
+                    "corruption-accepted",
+                    &format!("corruption-accepted|{}|pair-with-unnoticed-{}", a.name, match holes[*hi] { Mutation::Flip(..) => "bit-flip", _ => "byte-substitution" }),
+                    json!({"artifact": a.name, "mutation": format!("{:?} + {m2:?}", holes[*hi]), "original_logical": format!("{orig_logical:?}").chars().take(300).collect::<String>(), "mutant_item_not_in_original": bad.chars().take(300).collect::<String>(), "artifact_hex": hex::encode(&a.bytes[..a.bytes.len().min(2048)])}),
+                    &format!("{}: {:?} alone is accepted with the value unchanged; together with {m2:?} the altered value is accepted — the first mutation switches the integrity check off", a.name, holes[*hi]),
+                );
+            }
+        }
+        rep.bump("second_level_mutants", second.len() as u64);
+        rep.add_evaluations((muts.len() + second.len()) as u64);
+        rep.add_nontrivial_count((muts.len() + second.len()) as u64);
         rep.add_outcome(fnv64_str(&format!("{}|{rejected}|{accepted_same}", a.name)));
         rep.sample(json!({"artifact": a.name, "bytes": a.bytes.len(), "protected_bytes": a.regions.iter().map(|r| r.len()).sum::<usize>(), "mutants": muts.len(), "rejected": rejected, "accepted_with_unchanged_value": accepted_same}));
         if rejected == 0 {
